@@ -718,3 +718,56 @@ func vrSpansHook(an verifAnalysis, code string) {
 		verifCheckReportedSpans(an, code)
 	}
 }
+
+// ---- which loop a `break` leaves ----
+
+// VerifHarness_LoopTyping: a `loop` without a `break` of its own never completes (type never), so a function whose body
+// ends in it needs no result value; a `loop` with a `break` of its own can complete and yields null, so
+// `fn f(c: bool) -> int { loop { ... } }` is ill-typed. A `break` belongs to the innermost loop around it: a break inside
+// a nested for/while/loop is no exit of the outer loop, and a nested loop does not hide a break of the outer one
+// that stands before or behind it.
+var vrLoopItems = []string{"", "if c { break; }", "if c { return 1; }", "if c { continue; }", "println(0);"}
+var vrInnerLoops = []string{"", "for i in 0..2 { %B }", "while c { %B }", "loop { %B }", "for x in [1, 2] { for y in [3] { %B } }"}
+var vrInnerBodies = []string{"println(1);", "if c { break; }", "if c { continue; }", "break;"}
+
+func VerifHarness_LoopTyping() {
+	before := errors.VerifNdIntRange("before", 0, len(vrLoopItems)-1)
+	inner := errors.VerifNdIntRange("inner", 0, len(vrInnerLoops)-1)
+	body := errors.VerifNdIntRange("body", 0, len(vrInnerBodies)-1)
+	after := errors.VerifNdIntRange("after", 0, len(vrLoopItems)-1)
+	outer := errors.VerifNdIntRange("outer", 0, 1) // 0: the loop is the function's body; 1: the loop is nested in a block expression
+	if inner == 0 && body != 0 {
+		errors.VerifReached("not-applicable")
+		return
+	}
+	innerTxt := vrSubst(vrInnerLoops[inner], "", vrInnerBodies[body])
+	innerNever := inner == 3 && (body == 0 || body == 2) // an inner `loop` without break: the rest of the outer body is unreachable
+	if innerNever && after != 0 {
+		errors.VerifReached("not-applicable") // whether an unreachable break still counts is not prescribed
+		return
+	}
+	loopTxt := "loop {\n    " + vrLoopItems[before] + "\n    " + innerTxt + "\n    " + vrLoopItems[after] + "\n  }"
+	code := "fn f(c: bool) -> int {\n  " + loopTxt + "\n}\nfn main() {\n  println(f(true));\n}\n"
+	if outer == 1 {
+		code = "fn f(c: bool) -> int {\n  {\n  " + loopTxt + "\n  }\n}\nfn main() {\n  println(f(true));\n}\n"
+	}
+	ownBreak := before == 1 || after == 1
+	errors.VerifTag("case", fmt.Sprintf("before=%q inner=%q after=%q nested-in-block=%v", vrLoopItems[before], innerTxt, vrLoopItems[after], outer == 1))
+	verifDebug("program", code)
+	var an verifAnalysis
+	panicked, pmsg := errors.VerifPanics(func() { an = verifAnalyze(code, nil, nil, true) })
+	if panicked {
+		vrAnalyzerPanicked(pmsg)
+		return
+	}
+	errors.VerifReached("analyzed")
+	vrSpansHook(an, code)
+	if an.hasError {
+		errors.VerifTag("diag", an.describe())
+	}
+	if ownBreak {
+		errors.VerifAssert("loop-with-own-break-yields-null:ill-typed-program-rejected", an.hasError)
+	} else {
+		errors.VerifAssert("loop-without-own-break-never-completes:well-typed-program-accepted", !an.hasError)
+	}
+}
